@@ -391,6 +391,39 @@ theorem fromRange_all_succeed_ok (r : Req) (page : Nat) (k : Kernel)
     simp only [hf] at h
     exact core h _ _
 
+/-- **a guest region is refused when its end would exceed the address space, and nothing stays mapped** —
+    also when the mapping had already been built (any kind of Xen mapping) -/
+theorem guestRegionFromRange_error_leaves_nothing (r : Req) (guestBase page : Nat) (k : Kernel) (sc : Script)
+    (e : BErr) (k' : Kernel) (sc' : Script)
+    (h : guestRegionFromRange r guestBase page k sc = (.error e, k', sc')) :
+    k'.maps = k.maps ∧ k'.grants = k.grants := by
+  unfold guestRegionFromRange at h
+  generalize hf : fromRange r page k sc = x at h
+  obtain ⟨o, k1, sc1⟩ := x
+  cases o with
+  | error e1 =>
+    simp at h; rw [← h.2.1]; exact fromRange_error_leaves_nothing r page k sc e1 k1 sc1 hf
+  | ok reg =>
+    simp only at h
+    split at h
+    · simp at h; rw [← h.2.1]; exact fromRange_then_drop_restores r page k sc reg k1 sc1 hf
+    · simp at h
+
+theorem guestRegionFromRange_ok_iff (r : Req) (guestBase page : Nat) (k : Kernel) (sc : Script) (reg : Region) (k' : Kernel) (sc' : Script) :
+    guestRegionFromRange r guestBase page k sc = (.ok reg, k', sc') ↔
+      fromRange r page k sc = (.ok reg, k', sc') ∧ guestBase + r.size < U := by
+  unfold guestRegionFromRange
+  generalize hf : fromRange r page k sc = x
+  obtain ⟨o, k1, sc1⟩ := x
+  cases o with
+  | error e1 => simp
+  | ok reg1 =>
+    have hs : reg1.size = r.size := (fromRange_ok_reports r page k sc reg1 k1 sc1 hf).1
+    simp only [checkedAdd, hs]
+    by_cases hlt : guestBase + r.size < U
+    · simp [hlt]
+    · simp [hlt]
+
 /-! ### non-vacuity: concrete requests through the whole function -/
 def grantReq : Req := { size := 0x2000, file := some { fileLen := 0x10000, start := 0 }, prot := none, flags := none,
                         xenFlags := 0x2, xenData := 7, guestBase := 0x5000 }
@@ -423,3 +456,5 @@ end VmMem
 #print axioms VmMem.C15x.fromRange_then_drop_restores
 #print axioms VmMem.C15x.fromRange_ondemand_no_calls
 #print axioms VmMem.C15x.fromRange_all_succeed_ok
+#print axioms VmMem.C15x.guestRegionFromRange_error_leaves_nothing
+#print axioms VmMem.C15x.guestRegionFromRange_ok_iff
